@@ -6,6 +6,7 @@ package c04
 
 import (
 	"fmt"
+	"strings"
 
 	"package-operator.run/internal/packages/zzverif/checks"
 	"package-operator.run/internal/packages/zzverif/kmodel"
@@ -152,6 +153,12 @@ func controlsAt(v osw.View, s *kmodel.Store, obj map[string]any, os world.Ident,
 		ns, _ := m["namespace"].(string)
 		p := v.ContentAt(world.PKOKey("ObjectSetPhase", ns, c.Name), i)
 		if p != nil && kmodel.UID(p) == c.UID && world.ControlledBy(p, false, os) {
+			return true
+		}
+		// the phase object that rolled this object out for the ObjectSet has vanished without
+		// tearing it down: the object is still what the ObjectSet put there (an in-process phase
+		// cannot leave it behind), only the garbage collector will find it
+		if p == nil && strings.HasPrefix(c.Name, os.Name+"-") {
 			return true
 		}
 	}
